@@ -675,6 +675,44 @@ func (i *interpreter) selectValue(elems []value, idx symInt) value {
 	if !ok {
 		panic(unsupported(fmt.Sprintf("symbolic index into elements of type %T", last)))
 	}
+	{
+		allConc := true
+		for _, e := range elems {
+			if _, sym := e.(symInt); sym {
+				allConc = false
+				break
+			}
+		}
+		if allConc && len(elems) >= 4 {
+			tab := make([]uint64, len(elems))
+			for j, e := range elems {
+				tab[j] = bitsOf(e) & mask(kindWidth(k))
+			}
+			return i.mkInt(i.tb.Table(tab, kindWidth(k), idx.t), k)
+		}
+	}
+	// index is itself a constant-leaf ite tree (e.g. a previous table lookup) and the table is concrete:
+	// push the lookup into the leaves
+	if isLeafTree(idx.t) {
+		allConc := true
+		for _, e := range elems {
+			if _, sym := e.(symInt); sym {
+				allConc = false
+				break
+			}
+		}
+		if allConc {
+			n := uint64(len(elems))
+			if r, ok := i.tb.leafMap(idx.t, kindWidth(k), func(kk uint64) uint64 {
+				if kk >= n {
+					return 0 // excluded by the bounds check on this path
+				}
+				return bitsOf(elems[kk])
+			}); ok {
+				return i.mkInt(r, k)
+			}
+		}
+	}
 	// group equal concrete runs to keep the chain small
 	acc := i.termOf(last)
 	for j := len(elems) - 2; j >= 0; j-- {
